@@ -469,12 +469,22 @@ def _canon_set(n, names, ids):
     return "%s %s %s" % (lhs, op, _canon(n["y"], names, ids))
 
 
-def skeleton(f, pidx):
+def skeleton(f, pidx, prog=None):
     """the buffering skeleton of a Step function: its branch/loop conditions and its updates of scalar state fields, in
     order, with locals renamed and the data operations (calls) abstracted"""
     ids = state_aliases(f, pidx)
     from . import vp
     names, out = {"#syms": vp.single_assign_syms(f)}, []
+    # array fields of the state that some branch condition looks at: where they are updated relative to the test
+    # belongs to the skeleton (other array writes are the data operation, which differs between siblings by design)
+    tested = set()
+    for s_ in walk(f.body):
+        if s_.get("k") in ("If", "While", "Do", "For") and isinstance(s_.get("c"), dict):
+            for n_ in walk(s_["c"]):
+                if n_.get("k") in ("Member", "Index"):
+                    F_ = field_of(n_, ids)
+                    if F_:
+                        tested.add(F_)
 
     def rec(s):
         if not isinstance(s, dict):
@@ -502,6 +512,22 @@ def skeleton(f, pidx):
             for n in walk(s):
                 if n.get("k") == "Bin" and n["op"] in ir.ASSIGN_OPS and strip(n["x"]).get("k") == "Member" and field_of(n["x"], ids):
                     out.append(("set " + _canon_set(n, names, ids), n.get("l")))
+                elif n.get("k") == "Bin" and n["op"] in ir.ASSIGN_OPS and strip(n["x"]).get("k") in ("Index", "Un") and field_of(n["x"], ids):
+                    # an element of an array field updated in place (the length counters of the AEAD states): where this
+                    # happens relative to the tests is part of the skeleton; consecutive updates of one field count once
+                    ev = "upd ST.%s[]" % field_of(n["x"], ids)
+                    if field_of(n["x"], ids) in tested and (not out or out[-1][0] != ev):
+                        out.append((ev, n.get("l")))
+                elif n.get("k") == "Call" and tested and prog is not None and n.get("callee") != "utilAssert":
+                    proto = prog.proto(n.get("callee"), f.unit) if n.get("callee") else None
+                    for i, a in enumerate(n["a"]):
+                        if proto is not None and i < len(proto.params) and proto.params[i].get("pc"):
+                            continue
+                        acc = array_access(a, ids, tested, ()) if strip(a).get("p") else None
+                        if acc is not None:
+                            ev = "upd ST.%s[]" % acc[0]
+                            if not out or out[-1][0] != ev:
+                                out.append((ev, n.get("l")))
     rec(f.body)
     return out
 
@@ -514,7 +540,7 @@ def check_sibling_steps(prog, res, rule):
         missing = [x for x in names if x not in fs]
         if missing:
             raise AnalysisBroken("sibling Step functions %s of %s vanished" % (missing, sn))
-        sk = {x: skeleton(*fs[x]) for x in names}
+        sk = {x: skeleton(fs[x][0], fs[x][1], prog) for x in names}
         ref = names[0]
         texts = {x: [t for t, _ in sk[x]] for x in names}
         # the majority form is the reference; with two siblings the first one
